@@ -77,9 +77,22 @@ def run(chk, prog, mod):
         r = run_mutant(mod, pid, mp, base_keys)
         res.append(r)
         print('selftest %s %s: %s %s' % (pid, r['mutant'], r['status'], r.get('why', '') or r.get('new_findings', '')))
+    # behaviour-preserving variants: the rules must stay quiet on them
+    for bp in sorted(glob.glob(os.path.join(VERIF, 'selftest', 'benign', '*.json'))):
+        spec = json.load(open(bp))
+        if pid not in spec.get('props', [pid]):
+            continue
+        r = run_mutant(mod, pid, bp, base_keys)
+        if r['status'] == 'detected' or r['status'] == 'MISSED':
+            r['status'] = 'FALSE-ALARM' if r.get('new_findings') else 'quiet'
+        r['kind'] = 'benign'
+        res.append(r)
+        print('selftest %s benign %s: %s %s' % (pid, r['mutant'], r['status'], r.get('why', '') or r.get('new_findings', '')))
     chk.sensitivity = res
-    chk.extra_cov['selftest_mutants'] = len(res)
+    chk.extra_cov['selftest_mutants'] = sum(1 for r in res if r.get('kind') != 'benign')
     chk.extra_cov['selftest_detected'] = sum(1 for r in res if r['status'] == 'detected')
+    chk.extra_cov['selftest_benign_variants'] = sum(1 for r in res if r.get('kind') == 'benign')
+    chk.extra_cov['selftest_false_alarms'] = [r['mutant'] for r in res if r['status'] == 'FALSE-ALARM']
     chk.extra_cov['selftest_missed'] = [r['mutant'] for r in res if r['status'] == 'MISSED']
     # canary hook: rule sets may define canary(chk) for zero-expected-count rules
     if hasattr(mod, 'canary'):
